@@ -44,7 +44,8 @@ def rename_outputs(sel, level, cols):
     mapping = {}
     tl = []
     for i, (e, a) in enumerate(sel['targets']):
-        new = f'v{level}_{i}'
+        # one output in three is called `meta`, a name the ledger tables leave out of their own wildcard
+        new = f'v{level}_{i}' if (i, level % 2) != (1, 0) or len(sel['targets']) % 3 else 'meta'
         if a is not None:
             mapping[a] = new
         elif e[0] == 'col' and i % 2 == 0:
@@ -164,7 +165,9 @@ def in_case(draw):
     src, scols = (table, cols) if same else (other, ucols)
     t = draw(st.sampled_from(['int', 'str', 'date', 'decimal', 'bool']))
     x = draw(gen.exprs(t, cols, 1))
-    y = draw(gen.exprs(t, scols, 1))
+    # int and decimal are comparable: membership across the two is membership by value
+    ty = {'int': 'decimal', 'decimal': 'int'}[t] if t in ('int', 'decimal') and draw(st.integers(0, 2)) == 0 else t
+    y = draw(gen.exprs(ty, scols, 1))
     inner = bql.select([(y, None if y[0] == 'col' else 'y')], ('table', src['name']),
                        draw(st.none() | gen.exprs('bool', scols, 1) | st.just(['const', 'bool', False])),
                        distinct=draw(st.booleans()))
